@@ -166,12 +166,43 @@ def _work(job):
     return n, len(nt), bad
 
 
+HRICH_SMILES = ['C[PH4]', 'C[SH3]', '[NH4]C', 'C[OH2]C', '[CH5]C', 'C[PH6]', 'C[SH5]', '[BH4]C', 'C[ClH2]', 'C[PH2](C)C',
+                'C[SH2]C', '[PH5]', '[SH6]', 'C[NH3]C', '[CH3][CH3]', 'CC', 'C[PH4]C', '[SH4](C)C']
+SEQ_TABLES = ['octet_rule', 'default', 'hypervalent', 'octet_rule', 'relaxed', 'default']
+
+
+def _seq_work(job):
+    """One process, tables switched in sequence (C10: 'decoding under K never raises' for all tables K)."""
+    import selfies as sf
+    from harness import enc
+    pid, strings = job
+    n, bad = 0, []
+    for t in SEQ_TABLES:
+        sf.set_semantic_constraints(enc.relaxed_table() if t == 'relaxed' else t)
+        for s in strings:
+            n += 1
+            for cl, d in enc.analyze(s):
+                if cl.startswith(pid + ':') and len(bad) < 4:
+                    bad.append({'clause': cl, 'detail': 'under table %r after %r: %s' % (t, SEQ_TABLES, d),
+                                'input': {'smiles': s, 'table': t, 'sequence': SEQ_TABLES},
+                                'features': {'ring_after_branch': ring_after_branch(s)}})
+            try:
+                sf.encoder(s, strict=False) and sf.decoder(sf.encoder(s, strict=False))
+            except Exception:
+                pass
+    sf.set_semantic_constraints('default')
+    return n, 0, bad
+
+
 def run(ctx, pid, inputs, nresp, rule):
     from harness.par import pmap, chunks
     from harness import enc
     table = enc.relaxed_table()
     jobs = [(pid, ch, ctx.seed + i, nresp, table) for i, ch in enumerate(chunks(inputs, 32))]
     res = pmap(_work, jobs)
+    res += pmap(_seq_work, [(pid, HRICH_SMILES), (pid, HRICH_SMILES[::-1])])
+    rule += ('; plus explicit-H molecules encoded/decoded in one process under the table sequence %r (stale-memo check)'
+             % (SEQ_TABLES,))
     return {'evaluations': sum(r[0] for r in res), 'distinct_nontrivial': sum(r[1] for r in res),
             'rule': rule, 'exhaustive': False, 'samples': inputs[:3] + inputs[-2:],
             'violations': [b for r in res for b in r[2]],
@@ -183,6 +214,18 @@ def replay(d):
     import selfies as sf
     from harness import enc
     i = d['input']
+    if i.get('sequence'):
+        bad = []
+        for t in i['sequence']:
+            sf.set_semantic_constraints(enc.relaxed_table() if t == 'relaxed' else t)
+            for s in HRICH_SMILES:
+                bad += [x for x in enc.analyze(s) if x[0].startswith(d['property'] + ':')]
+                try:
+                    sf.encoder(s, strict=False) and sf.decoder(sf.encoder(s, strict=False))
+                except Exception:
+                    pass
+        sf.set_semantic_constraints('default')
+        return not bad, repr(bad[:1])
     sf.set_semantic_constraints(enc.relaxed_table() if i.get('table') == 'relaxed' else i.get('table', 'default'))
     r = enc.analyze(i['smiles'])
     pid = d['property']
